@@ -132,6 +132,12 @@ package jsonpath
 //@ smt (declare-fun vrank (Val) Int)
 //@ smt (declare-fun paramSingleQ (Val) Bool)
 //@ smt (declare-fun QH (Val Val Val) Bool)
+//@ smt (declare-fun Sel (Val Val Val) Bool)
+//@ smt (declare-fun First (Val Val Val) Val)
+//@ smt (declare-fun PV (Val Val Val) Val)
+//@ smt (declare-fun cmpRel (Val Val Val) Bool)
+//@ smt (declare-fun deepEq (Val Val) Bool)
+//@ smt (declare-fun regexMatch (Int Str) Bool)
 
 //@ spec rtOK(r *errorBasicRuntime) bool = r != nil && wf(r) && r.node != nil
 //@ spec errRT(b *syntaxBasicNode) bool = rtOK(b.errorRuntime)
@@ -247,6 +253,9 @@ package jsonpath
 //@   requires WFnode(this) && extVal(current)
 //@   include retrieveFrame
 //@   ensures single: chainSingle(this) ==> len(container.result) <= old(len(container.result)) + 1
+// Assumed, not proved (it is the functional specification of retrieval, C01): on an empty buffer, success
+// and the first result are functions Sel/First of (node, root, current).
+//@   assume old(len(container.result)) == 0 ==> ((ret == nil) <==> Sel(this, root, current)) && (ret == nil ==> elemAt(container.result, 0) == First(this, root, current))
 //@   decreases 3*height(this) + 2
 
 //@ interface syntaxNode.isValueGroup
@@ -448,15 +457,16 @@ package jsonpath
 // QH(q, root, member): the specification truth value of filter query q for one member (C09/C10).
 // holdsAt(list, j): how a computed list answers for member j (length-1 lists are whole-match verdicts).
 //@ spec holdsAt(s []interface{}, j int) bool = (len(s) == 1 ? elemAt(s, 0) : elemAt(s, j)) != emptyEntity
-//@ spec memberAt(cl []interface{}, j int) any = old(elemAt(cl, off(cl) + j))
+//@ spec slotAt(s []interface{}, j int) any = len(s) == 1 ? elemAt(s, 0) : elemAt(s, j)
+//@ spec memberAt(cl []interface{}, j int) any = old(cl[j])
 //@ spec WFandDef(n *syntaxLogicalAnd) bool = n != nil && !paramSingleQ(n) && n.leftQuery != nil && n.rightQuery != nil && WFquery(n.leftQuery) && WFquery(n.rightQuery) && 0 <= qheight(n.leftQuery) && qheight(n.leftQuery) < qheight(n) && 0 <= qheight(n.rightQuery) && qheight(n.rightQuery) < qheight(n) && (forall r Val, c Val {QH(n, r, c)} :: QH(n, r, c) <==> (QH(n.leftQuery, r, c) && QH(n.rightQuery, r, c)))
 //@ spec WForDef(n *syntaxLogicalOr) bool = n != nil && !paramSingleQ(n) && n.leftQuery != nil && n.rightQuery != nil && WFquery(n.leftQuery) && WFquery(n.rightQuery) && 0 <= qheight(n.leftQuery) && qheight(n.leftQuery) < qheight(n) && 0 <= qheight(n.rightQuery) && qheight(n.rightQuery) < qheight(n) && (forall r Val, c Val {QH(n, r, c)} :: QH(n, r, c) <==> (QH(n.leftQuery, r, c) || QH(n.rightQuery, r, c)))
 //@ spec WFnotDef(n *syntaxLogicalNot) bool = n != nil && !paramSingleQ(n) && n.query != nil && WFquery(n.query) && 0 <= qheight(n.query) && qheight(n.query) < qheight(n) && (forall r Val, c Val {QH(n, r, c)} :: QH(n, r, c) <==> !QH(n.query, r, c))
 //@ spec WFcparam(p *syntaxBasicCompareParameter, q any) bool = p != nil && p.param != nil && WFquery(p.param) && 0 <= qheight(p.param) && qheight(p.param) < qheight(q) && paramSingleQ(p.param) && (p.isLiteral ==> isType(p.param, *syntaxQueryParamLiteral) || isType(p.param, *syntaxQueryParamRoot))
 //@ spec WFcmpqDef(n *syntaxBasicCompareQuery) bool = n != nil && !paramSingleQ(n) && n.comparator != nil && WFcmp(n.comparator) && WFcparam(n.leftParam, n) && WFcparam(n.rightParam, n) && n.rightParam.isLiteral
-//@ spec WFlitDef(n *syntaxQueryParamLiteral) bool = n != nil && len(n.literal) == 1 && wf(n.literal) && RO(n.literal)
-//@ spec WFprootDef(n *syntaxQueryParamRoot) bool = n != nil && n.param != nil && WFnode(n.param) && 0 <= height(n.param) && height(n.param) < qheight(n) && (paramSingleQ(n) ==> chainSingle(n.param))
-//@ spec WFpcurDef(n *syntaxQueryParamCurrentRoot) bool = n != nil && n.param != nil && WFnode(n.param) && 0 <= height(n.param) && height(n.param) < qheight(n)
+//@ spec WFlitDef(n *syntaxQueryParamLiteral) bool = n != nil && len(n.literal) == 1 && wf(n.literal) && RO(n.literal) && off(n.literal) == 0 && elemAt(n.literal, 0) != emptyEntity && (forall r Val, c Val {QH(n, r, c)} :: QH(n, r, c)) && (forall r Val, c Val {PV(n, r, c)} :: PV(n, r, c) == elemAt(n.literal, 0))
+//@ spec WFprootDef(n *syntaxQueryParamRoot) bool = n != nil && n.param != nil && WFnode(n.param) && 0 <= height(n.param) && height(n.param) < qheight(n) && (paramSingleQ(n) ==> chainSingle(n.param)) && (forall r Val, c Val {QH(n, r, c)} :: QH(n, r, c) <==> Sel(n.param, r, r)) && (forall r Val, c Val {PV(n, r, c)} :: PV(n, r, c) == (Sel(n.param, r, r) ? First(n.param, r, r) : emptyEntity))
+//@ spec WFpcurDef(n *syntaxQueryParamCurrentRoot) bool = n != nil && n.param != nil && WFnode(n.param) && 0 <= height(n.param) && height(n.param) < qheight(n) && (forall r Val, c Val {QH(n, r, c)} :: QH(n, r, c) <==> Sel(n.param, r, c)) && (forall r Val, c Val {PV(n, r, c)} :: PV(n, r, c) == (Sel(n.param, r, c) ? First(n.param, r, c) : emptyEntity))
 
 //@ spec WFdirectDef(c *syntaxCompareDirectEQ) bool = c != nil && c.syntaxTypeValidator != nil && WFval(c.syntaxTypeValidator) && vkind(c) == vkind(c.syntaxTypeValidator) && 1 <= vkind(c) && vkind(c) <= 4 && 0 <= vrank(c.syntaxTypeValidator) && vrank(c.syntaxTypeValidator) < vrank(c)
 //@ spec WFdeepDef(c *syntaxCompareDeepEQ) bool = c != nil && vkind(c) == 0 && WFval(c.syntaxBasicAnyValueTypeValidator) && vkind(c.syntaxBasicAnyValueTypeValidator) == 0
@@ -484,6 +494,7 @@ package jsonpath
 //@   include computeFrame
 //@   ensures single: paramSingleQ(this) ==> ret != fullList
 //@   ensures one: (isType(this, *syntaxQueryParamLiteral) || isType(this, *syntaxQueryParamRoot)) ==> len(ret) == 1
+//@   ensures pv: paramSingleQ(this) ==> (forall j {elemAt(ret, j)} {PV(this, root, memberAt(currentList, j))} :: 0 <= j && j < len(currentList) ==> slotAt(ret, j) == PV(this, root, memberAt(currentList, j)))
 //@   ensures sem: forall j {elemAt(ret, j)} {QH(this, root, memberAt(currentList, j))} :: 0 <= j && j < len(currentList) ==> (holdsAt(ret, j) <==> QH(this, root, memberAt(currentList, j)))
 //@   decreases 3*qheight(this) + 2
 
@@ -640,14 +651,19 @@ package jsonpath
 //@   implements syntaxQuery.compute
 //@   unfold WFquery(this) ==> WFpcurDef(e)
 //@   loop 1 invariant ownsBuf(container) && wf(result) && mine(result) && len(result) == len(currentList) && arr(result) != arr(container.result) && fresh(result) && (arr(currentList) == 0 || arr(currentList) != arr(container.result))
-//@   loop 1 invariant extStack(currentList) && (arr(currentList) == 0 || mine(currentList) || RO(currentList))
+//@   loop 1 invariant extStack(currentList) && (arr(currentList) == 0 || mine(currentList) || RO(currentList)) && off(result) == 0
+//@   loop 1 invariant done: forall j {elemAt(result, j)} {Sel(e.param, root, memberAt(currentList, j))} :: 0 <= j && j <= rangeindex ==> ((elemAt(result, j) != emptyEntity) <==> Sel(e.param, root, memberAt(currentList, j))) && (Sel(e.param, root, memberAt(currentList, j)) ==> elemAt(result, j) == First(e.param, root, memberAt(currentList, j)))
+//@   loop 1 invariant none: !hasValue ==> (forall j {elemAt(result, j)} {Sel(e.param, root, memberAt(currentList, j))} :: 0 <= j && j <= rangeindex ==> elemAt(result, j) == emptyEntity)
+//@   loop 1 invariant same: forall i {elemAt(currentList, i)} :: off(currentList) <= i && i < off(currentList) + len(currentList) ==> elemAt(currentList, i) == old(elemAt(currentList, i))
 
 //@ func (*syntaxBasicCompareParameter).compute
 //@   props C03 C04 C05 C06 C20
 //@   requires p != nil && p.param != nil && WFquery(p.param) && 0 <= qheight(p.param)
+//@   unfold WFquery(p.param) && isType(p.param, *syntaxQueryParamRoot) ==> WFprootDef(asType(p.param, *syntaxQueryParamRoot))
 //@   include computeFrame
 //@   ensures single: paramSingleQ(p.param) ==> ret != fullList
 //@   ensures one: (isType(p.param, *syntaxQueryParamLiteral) || isType(p.param, *syntaxQueryParamRoot)) ==> len(ret) == 1
+//@   ensures pv: paramSingleQ(p.param) ==> (forall j {elemAt(ret, j)} {PV(p.param, root, memberAt(currentList, j))} :: 0 <= j && j < len(currentList) ==> slotAt(ret, j) == PV(p.param, root, memberAt(currentList, j)))
 //@   decreases 3*qheight(p.param) + 3
 
 //@ func (*syntaxBasicCompareQuery).compute
